@@ -7,8 +7,10 @@ import (
 	"crypto/rsa"
 	"crypto/sha256"
 	"crypto/x509"
+	"crypto/x509/pkix"
 	"encoding/binary"
 	"fmt"
+	"math/big"
 	"os"
 	"os/exec"
 	"path/filepath"
@@ -618,6 +620,35 @@ func forgeries(c *Ctx, s p7Seed, emit func(class string, b []byte)) {
 			return true
 		})
 	}
+	// the OPTIONAL unauthenticatedAttributes [1] field of the signer entry holding attribute types that mean something
+	// only in the SIGNED set (messageDigest, contentType, signingTime), over replaced content: the unsigned set names the
+	// digest of the replaced content, the signed attributes and the signature are the original ones. What binds the
+	// content is the messageDigest among the attributes the signature was made over; nothing outside them may stand in
+	// for it. Kinds: a lone messageDigest; the three well-known attributes built afresh; a copy of the whole signed set
+	// re-bound to the replaced content; and, with the content KEPT, a messageDigest of other content in the unsigned set
+	// (which has to change nothing: the blob is as valid as before).
+	for _, kind := range []string{"message-digest", "well-known-three", "copy-of-signed-set"} {
+		kind := kind
+		edit("forge-content+unsigned-attrs/"+kind, func(r *derNode) bool {
+			set := signerSet(r)
+			if set == nil {
+				return false
+			}
+			d, ok := replaceAndRebind(r)
+			return ok && p7AddUnsignedWellKnown(set.kids[0], kind, d)
+		})
+	}
+	edit("forge-unsigned-attrs/content-kept/message-digest-of-other-content", func(r *derNode) bool {
+		set := signerSet(r)
+		if set == nil {
+			return false
+		}
+		h := sha256.Sum256([]byte("some other content"))
+		return p7AddUnsignedWellKnown(set.kids[0], "message-digest", h[:])
+	})
+	// the signer identity with the serial number of the named certificate in every other encoding of "the same octets":
+	// see serialEncodings
+	serialForgeries(s, emit)
 	// a blob inside a blob. The content is replaced and the whole entry consistently re-signed by ANOTHER key
 	// (identity, certificate, message digest, signature: a genuine signature of that other signer), and the
 	// original, genuine blob travels along in every place of the outer one that can hold a blob: unsigned
@@ -738,6 +769,137 @@ func p7SetIdentity(si *derNode, cert *x509.Certificate) bool {
 		ias.kids[1].leaf = append([]byte{0}, ias.kids[1].leaf...)
 	}
 	return true
+}
+
+var (
+	oidContentTypeDER = []byte{0x2a, 0x86, 0x48, 0x86, 0xf7, 0x0d, 0x01, 0x09, 0x03}
+	oidSigningTimeDER = []byte{0x2a, 0x86, 0x48, 0x86, 0xf7, 0x0d, 0x01, 0x09, 0x05}
+	oidDataDER        = []byte{0x2a, 0x86, 0x48, 0x86, 0xf7, 0x0d, 0x01, 0x07, 0x01}
+)
+
+// p7AddUnsigned appends attributes to the unauthenticatedAttributes [1] field of a signer entry (creating the field
+// behind the signature value when the entry has none)
+func p7AddUnsigned(si *derNode, attrs ...*derNode) bool {
+	if !si.compound || len(si.kids) == 0 {
+		return false
+	}
+	if last := si.kids[len(si.kids)-1]; last.tag == 0xa1 && last.compound {
+		last.kids = append(last.kids, attrs...)
+		return true
+	}
+	si.kids = append(si.kids, &derNode{tag: 0xa1, compound: true, kids: attrs})
+	return true
+}
+
+// p7AddUnsignedWellKnown puts attributes of the well-known (signed-attribute) types into the UNSIGNED set of a signer
+// entry, with d as the messageDigest value
+func p7AddUnsignedWellKnown(si *derNode, kind string, d []byte) bool {
+	attr := func(oid []byte, value *derNode) *derNode {
+		return &derNode{tag: 0x30, compound: true, kids: []*derNode{{tag: 0x06, leaf: oid}, {tag: 0x31, compound: true, kids: []*derNode{value}}}}
+	}
+	md := attr(oidMessageDigestDER, &derNode{tag: 0x04, leaf: append([]byte{}, d...)})
+	switch kind {
+	case "message-digest":
+		return p7AddUnsigned(si, md)
+	case "well-known-three":
+		return p7AddUnsigned(si, attr(oidContentTypeDER, &derNode{tag: 0x06, leaf: oidDataDER}), attr(oidSigningTimeDER, &derNode{tag: 0x17, leaf: []byte("380119031407Z")}), md)
+	case "copy-of-signed-set":
+		at := p7SignedAttrs(si)
+		if at == nil || !at.compound {
+			return false
+		}
+		cp := &derNode{tag: 0x30, compound: true, kids: []*derNode{{tag: 0x02, leaf: []byte{1}}, {tag: 0x30, compound: true}, at.clone()}}
+		if !p7SetMessageDigest(cp, d) {
+			return false
+		}
+		return p7AddUnsigned(si, cp.kids[2].kids...)
+	}
+	return false
+}
+
+// serialEncodings: the octets of an INTEGER that a signer entry can carry in place of the DER encoding L of a
+// certificate's (positive) serial number, all of them a DIFFERENT number or not DER at all. A certificate serial whose
+// leading octet has its top bit set is encoded with a 00 pad octet in front; the same octets without the pad are a
+// negative number (N - 2^k), with one pad more they are not minimal, with ff in front they are another negative
+// number, and so on. A signer entry names the certificate only if its serial is the certificate's serial NUMBER in
+// DER; "the same octets up to padding / sign" names somebody else (or nobody).
+func serialEncodings(L []byte) []struct {
+	name string
+	b    []byte
+} {
+	type enc = struct {
+		name string
+		b    []byte
+	}
+	cat := func(p []byte, q []byte) []byte { return append(append([]byte{}, p...), q...) }
+	var out []enc
+	if len(L) > 1 && L[0] == 0 {
+		out = append(out, enc{"pad-octet-dropped", cat(nil, L[1:])}) // top bit of the leading octet now set: negative
+	}
+	if len(L) > 0 && L[0]&0x80 == 0 {
+		m := cat(nil, L)
+		m[0] |= 0x80
+		out = append(out, enc{"top-bit-set", m})
+	}
+	out = append(out, enc{"pad-octet-added", cat([]byte{0}, L)}, enc{"two-pad-octets-added", cat([]byte{0, 0}, L)}, enc{"ff-octet-added", cat([]byte{0xff}, L)})
+	// -N in minimal two's complement
+	n := new(big.Int).Neg(new(big.Int).SetBytes(L))
+	if n.Sign() < 0 {
+		k := uint(8 * len(L))
+		tc := new(big.Int).Add(new(big.Int).Lsh(big.NewInt(1), k), n).Bytes() // 2^k - N, k bits
+		for len(tc) < len(L) {
+			tc = cat([]byte{0}, tc)
+		}
+		for len(tc) > 1 && tc[0] == 0xff && tc[1]&0x80 != 0 {
+			tc = tc[1:]
+		}
+		out = append(out, enc{"negated", tc})
+	}
+	out = append(out, enc{"empty", nil})
+	return out
+}
+
+// serialForgeries: the first signer entry with its serial number re-encoded in each way of serialEncodings
+func serialForgeries(s p7Seed, emit func(class string, b []byte)) {
+	roots, ok := parseDER(s.blob)
+	if !ok || len(roots) == 0 {
+		return
+	}
+	serialOf := func(r *derNode) *derNode {
+		sd := p7SignedDataOf(r)
+		if len(sd.kids) == 0 {
+			return nil
+		}
+		set := sd.kids[len(sd.kids)-1]
+		if set.tag != 0x31 || len(set.kids) == 0 || len(set.kids[0].kids) < 2 {
+			return nil
+		}
+		ias := set.kids[0].kids[1]
+		if ias.tag != 0x30 || len(ias.kids) != 2 || ias.kids[1].tag != 0x02 || ias.kids[1].compound {
+			return nil
+		}
+		return ias.kids[1]
+	}
+	n0 := serialOf(roots[0])
+	if n0 == nil {
+		return
+	}
+	for _, e := range serialEncodings(n0.leaf) {
+		r := roots[0].clone()
+		serialOf(r).leaf = e.b
+		emit("forge-serial-encoding/"+e.name, r.encode())
+	}
+}
+
+// serialClassShapes: signer certificates by the shape of their serial number's octets: the top bit of the leading octet
+// set (DER needs a 00 pad octet) in 1, 2, 3, 8 and 20 octets, all ones, and for contrast the largest values without
+// a pad (7f, 7fff) and a serial with an inner zero octet
+func serialClassShapes() []certShape {
+	var out []certShape
+	for _, o := range [][]byte{{0x80}, {0xff}, {0x80, 0x00}, {0xff, 0xff, 0x00}, {0x80, 0, 0, 0, 0, 0, 0, 1}, bytes.Repeat([]byte{0xff}, 20), append([]byte{0x80}, bytes.Repeat([]byte{0x00}, 19)...), {0x7f}, {0x7f, 0xff}, {0x01, 0x00, 0x80}} {
+		out = append(out, certShape{issuer: pkix.Name{CommonName: "serial class"}, serial: new(big.Int).SetBytes(o), desc: fmt.Sprintf("serial-class/%x", o)})
+	}
+	return out
 }
 
 // keyOfCert finds the pool key a certificate of the harness was made with
@@ -1058,6 +1220,29 @@ func c04Gen(c *Ctx) {
 			p7Eval(c, cs, "C04")
 		}
 	}
+	// signer certificates by serial-number class, crossed with every encoding of the serial in the signer entry
+	// (library-signed and OpenSSL-shaped blobs; the seed itself and the serial forgeries only, all certificates)
+	{
+		k0, k1 := poolKey(c, 2048, 0), poolKey(c, 2048, 1)
+		for i, sh := range serialClassShapes() {
+			if !c.Mine(i) {
+				continue
+			}
+			right, twin, other := makeRSACert(k0, sh), makeRSACert(k1, sh), makeRSACert(k1, certShapes(c)[0])
+			var blob []byte
+			if i%2 == 0 {
+				blob, _ = pkcs7.SignPKCS7(k0, right, pkcs7.OIDData, []byte("content under a serial class"))
+			} else {
+				blob = buildCMS(k0, right, []byte("content under a serial class"), i%4 == 1, false, true)
+			}
+			if blob == nil {
+				continue
+			}
+			s := p7Seed{"serial-class/" + sh.desc, blob, right, twin, other, true}
+			run(s, "seed", s.blob, true)
+			serialForgeries(s, func(class string, b []byte) { run(s, class, b, true) })
+		}
+	}
 	for si, s := range seeds {
 		if !c.Mine(si) { // thorough tier: the seeds are divided among the shard processes
 			continue
@@ -1073,7 +1258,7 @@ func c04Gen(c *Ctx) {
 
 func init() {
 	register("C04", &PropDef{
-		Rule:   "seeds: library-signed data (detached) and SpcIndirectDataContent blobs under six certificate shapes (one CA-issued with issuer different from subject, one whose own signature is sha384WithRSA, one with a hand-encoded UTF8String/emailAddress name), the sbsign/sbvarsign fixtures of the repository, OpenSSL smime/cms blobs when the CLI is present (including -noattr: signer entries without signed attributes, the signature made directly over the content octets, RFC 2315 section 9.3), OpenSSL-shaped CMS blobs built in the harness (with and without signed attributes, attached and detached); each verified under the signer's certificate, a twin certificate (same issuer and serial, another RSA key), Ed25519 and ECDSA twins (same issuer and serial, no RSA key at all) and an unrelated one. Derived blobs: single-bit/byte changes (quick: 40 stratified positions; thorough: every position of blobs <= 2 KiB), a bit flip inside every DER leaf (signature, digest, integers, OIDs), delete/duplicate/swap of the children of every constructed node, truncations, and targeted forgeries (content, content type, certificates, signer identity, message digest, dropped signed attributes, the signed attributes dropped AND the octets that were signed (their DER SET) moved to where the content is - as the contents octets of an OCTET STRING / of a SEQUENCE / as the SET itself, under the original content type and under data -, so that the genuine signature is one over the content of a blob that has no signed attributes and no message digest at all, every object identifier outside the certificates replaced by each of seven sibling OIDs alone and together with a content change, six two-signer-entry combinations of {names the certificate, names another} x {valid, damaged signature}, six two-signer-entry combinations over replaced content of {names the certificate, names another} x {original attributes, attributes of the same length re-bound to the replaced content (messageDigest := its SHA-256)} under the original signature in both orders - including forged entry first, original attributes second -, the single re-bound entry, the blob consistently re-signed by another key over replaced content, and that re-signed blob carrying the genuine one (and the reverse) in every place that can hold a blob: unsigned attributes of a signer entry under the SpcNestedSignature / MS RFC 3161 timestamp / timeStampToken / an unknown attribute type with one and two values, a counter-signature attribute holding the other blob's signer entry, an extra certificate, the CRL field, the content or a further content element, the other blob's signer entries appended / prepended, trailing fields of SignedData and of the content info, a second SignedData). On seeds and targeted forgeries the question is also asked of ONE parsed object that answers for several certificates in turn, in both orders: the twin / unrelated / non-RSA certificate after the signer's certificate (Verify(signer), Verify(this), Verify(signer), Verify(this)) and the signer's certificate after a twin with the same issuer and serial (Verify(twin), Verify(signer), Verify(twin), Verify(signer)); the answer must be the one a fresh object gives. On the same classes (and an eighth of the random mutations) the blob is also verified as the certificate data of an authenticated-variable descriptor (EFIVariableAuthentication2.Verify) and a success there is judged by the Spec as well. Every case is non-trivial; distinct = distinct (blob, certificate).",
+		Rule:   "seeds: library-signed data (detached) and SpcIndirectDataContent blobs under six certificate shapes (one CA-issued with issuer different from subject, one whose own signature is sha384WithRSA, one with a hand-encoded UTF8String/emailAddress name), the sbsign/sbvarsign fixtures of the repository, OpenSSL smime/cms blobs when the CLI is present (including -noattr: signer entries without signed attributes, the signature made directly over the content octets, RFC 2315 section 9.3), OpenSSL-shaped CMS blobs built in the harness (with and without signed attributes, attached and detached); each verified under the signer's certificate, a twin certificate (same issuer and serial, another RSA key), Ed25519 and ECDSA twins (same issuer and serial, no RSA key at all) and an unrelated one. Derived blobs: single-bit/byte changes (quick: 40 stratified positions; thorough: every position of blobs <= 2 KiB), a bit flip inside every DER leaf (signature, digest, integers, OIDs), delete/duplicate/swap of the children of every constructed node, truncations, and targeted forgeries (content, content type, certificates, signer identity, message digest, dropped signed attributes, the signed attributes dropped AND the octets that were signed (their DER SET) moved to where the content is - as the contents octets of an OCTET STRING / of a SEQUENCE / as the SET itself, under the original content type and under data -, so that the genuine signature is one over the content of a blob that has no signed attributes and no message digest at all, every object identifier outside the certificates replaced by each of seven sibling OIDs alone and together with a content change, six two-signer-entry combinations of {names the certificate, names another} x {valid, damaged signature}, six two-signer-entry combinations over replaced content of {names the certificate, names another} x {original attributes, attributes of the same length re-bound to the replaced content (messageDigest := its SHA-256)} under the original signature in both orders - including forged entry first, original attributes second -, the single re-bound entry, the blob consistently re-signed by another key over replaced content,, replaced content with the unauthenticatedAttributes [1] field of the signer entry holding attributes of the types that bind content in the SIGNED set (a lone messageDigest of the replaced content; contentType + signingTime + that messageDigest; a copy of the whole signed set re-bound to the replaced content) under the original signed attributes and signature - and, with the content kept, an unsigned messageDigest of other content, which must change nothing -, the signer entry's serial number re-encoded in every way that keeps 'the same octets' but is another number or no DER (the 00 pad octet of a serial whose leading octet has its top bit set dropped = a negative number, the top bit of the leading octet set, one / two 00 pad octets added, an ff octet added, the number negated, an empty INTEGER) - for every seed and for ten further signer certificates chosen by serial class (top bit of the leading octet set in 1, 2, 3, 8 and 20 octets, all ones, 7f / 7fff without pad, an inner zero octet; library-signed and OpenSSL-shaped blobs alternating) -, and that re-signed blob carrying the genuine one (and the reverse) in every place that can hold a blob: unsigned attributes of a signer entry under the SpcNestedSignature / MS RFC 3161 timestamp / timeStampToken / an unknown attribute type with one and two values, a counter-signature attribute holding the other blob's signer entry, an extra certificate, the CRL field, the content or a further content element, the other blob's signer entries appended / prepended, trailing fields of SignedData and of the content info, a second SignedData). On seeds and targeted forgeries the question is also asked of ONE parsed object that answers for several certificates in turn, in both orders: the twin / unrelated / non-RSA certificate after the signer's certificate (Verify(signer), Verify(this), Verify(signer), Verify(this)) and the signer's certificate after a twin with the same issuer and serial (Verify(twin), Verify(signer), Verify(twin), Verify(signer)); the answer must be the one a fresh object gives. On the same classes (and an eighth of the random mutations) the blob is also verified as the certificate data of an authenticated-variable descriptor (EFIVariableAuthentication2.Verify) and a success there is judged by the Spec as well. Every case is non-trivial; distinct = distinct (blob, certificate).",
 		Assume: []string{"x509.ParseCertificates and Certificate.CheckSignature are opaque Go library code; RSA/SHA-256 on the model side are the executable Lean implementations, compared with Go's verdict on every case"},
 		Eval:   c04Eval, Gen: c04Gen,
 	})
